@@ -115,17 +115,17 @@ theorem C01_no_hidden_state (w : World R) (hnr : w.NoRandom) (pt : P3 R) (depth 
       | ok bs0 =>
         by_cases he : earlyReturn w.ctx depth ps = true
         · exact ⟨.ok bs0, by funext g; simp [he, liftE_ok]⟩
-        · have hfs : StateIndep (G := G) (featuresBlocks w.features w.ctx ⟨pt, w.ctx.coord.toNatural pt, depth, w.ctx.gravity⟩ ps bs0) := by
+        · have hfs : StateIndep (G := G) (featuresBlocks w.features w.ctx (w.query pt depth) ps bs0) := by
             unfold featuresBlocks
             refine foldlM_stateIndep_mem _ _ (fun b f hf => ?_) _
             unfold Feature.applyBlocks
-            cases hc : f.cover w.ctx ⟨pt, w.ctx.coord.toNatural pt, depth, w.ctx.gravity⟩ with
+            cases hc : f.cover w.ctx (w.query pt depth) with
             | error e => exact ⟨.error e, by funext g; simp [liftE_error]⟩
             | ok o =>
               cases o with
               | none => exact ⟨.ok b, by funext g; simp [liftE_ok]⟩
               | some hit =>
-                obtain ⟨res, hres⟩ := paintBlocks_stateIndep (G := G) hit (Feature.cover_noRandom f (hnr f hf) _ _ hit hc) w.ctx ⟨pt, w.ctx.coord.toNatural pt, depth, w.ctx.gravity⟩ ps b
+                obtain ⟨res, hres⟩ := paintBlocks_stateIndep (G := G) hit (Feature.cover_noRandom f (hnr f hf) _ _ hit hc) w.ctx (w.query pt depth) ps b
                 exact ⟨res, by funext g; simp [hres]⟩
           obtain ⟨res, hres⟩ := hfs
           cases res with
